@@ -157,6 +157,10 @@ def run(R):
         R.saw(pn)
         pl = pn.calls(name='poll_next')
         R.check(len(pl) == 1 and mentions_field(pn.origin(pl[0][1]['args'][0]), 'inner'), 'C18.R3', 'stream:forwards-inner', site(pn), 'polls the wrapped WatchStream')
+        fam_pn = [pn] + [c for c in h.bodies if c.path.startswith(pn.path + '::') and c.kind == 'closure']
+        selfmade = [(fb, bb) for fb in fam_pn for bb, i, p, a, ops in mirlib.aggregates(fb, 'task::Poll', 'Pending')]
+        R.check(not selfmade, 'C18.R3', 'stream:no-self-made-pending', site(selfmade[0][0], selfmade[0][1]) if selfmade else site(pn),
+                'Poll::Pending is only ever the inner stream\'s Pending (which registered the waker): constructed Pending sites %d — returning Pending without a registered waker parks the watcher forever' % len(selfmade))
         inner = [c for c in h.bodies if c.path.startswith(pn.path + '::') and c.kind == 'closure']
         okm = any(any('HealthCheckResponse' in (t.get('fn') or '') and show(c.origin(t['args'][0])).startswith('arg2') for bb, t in c.calls(name='new')) for c in inner)
         R.check(okm, 'C18.R3', 'stream:maps-each-status', site(pn), 'each status is mapped to Ok(HealthCheckResponse::new(status))')
